@@ -44,6 +44,12 @@ impl ColumnIndex {
         let checksum = footer.get_u64();
         verify_checksum(checksum_type, index_data, checksum)?;
 
+        // the footer is not covered by the checksum: don't trust the length blindly
+        if length > index_data.len() {
+            return Err(TracedStorageError::decode(
+                "failed to decode column index: invalid length",
+            ));
+        }
         let mut indexes = Vec::with_capacity(length);
         for _ in 0..length {
             let index = BlockIndex::decode_length_delimited(&mut index_data)?;
